@@ -15,8 +15,9 @@ package main
 // (1) exhaustive scope shape x assignment form x place of definition, (2) parameters x
 // defaults x argument counts x call context, (3) closures / recursion / by value vs by
 // reference (directed), (4) exhaustive container kind x key kind x access form x
-// read|write, (5) len/add/del/concat sequences incl. aliasing, (6) object templates,
-// (7) random programs mixing all of it.
+// read|write, (5) len/add/del/concat sequences incl. aliasing, (6) object templates, (6b) templates and
+// function literals declared inside a running method / init / function x outer context, with probes of
+// the OUTER this / super / parameters / locals afterwards, (7) random programs mixing all of it.
 
 import (
 	"fmt"
@@ -263,6 +264,32 @@ var c05Objects = []string{
 	"a := {\"init\": func (this) {\nx.mark(this)\n}, \"m\": func () {\nthis := 1\nreturn this\n}}\no := new(a, 3)\nx.mark(o.m())\nx.mark(o.m())",
 	"a := {\"init\": func () {\nx.mark(1)\n}}\no := new(a)\nb := new(o)\nx.mark(len(b))",
 	"a := {1: 2, \"k\": {\"j\": 1}}\no := new(a)\no.k.j := 2\nx.mark(a.k.j, o[1])",
+}
+
+// templates / function literals declared INSIDE a running method, init or function, instantiated and
+// called there; afterwards the OUTER this / super / parameters / locals are marked (a call must shadow,
+// never overwrite, the variables of the enclosing frames). %s = the inner statements.
+var c05OuterCtx = []struct{ name, src string }{
+	{"top level", "b := 2\nc := 3\ng := 7\n%s\nx.mark(b, c, g)"},
+	{"function", "func f(b, c=3) {\nlet g := 7\n%s\nx.mark(b, c, g)\nreturn [b, c, g]\n}\nx.mark(f(2))\nx.mark(f(2, 6))"},
+	{"method", "a := {\"k\": \"outer\", \"j\": 1, \"n\": func (b) {\nthis.j := b\nreturn this.k\n}, \"m\": func (b, c=3) {\nlet g := 7\n%s\nx.mark(this.k, this.j, b, c, g)\nreturn this\n}}\no := new(a)\nc := o.m(2)\nx.mark(c.k, o.k, o.j)\nc := o.m(2, 6)\nx.mark(c.k, a.k)"},
+	{"method, inside blocks", "a := {\"k\": \"outer\", \"j\": 1, \"n\": func (b) {\nthis.j := b\nreturn this.k\n}, \"m\": func (b, c=3) {\nlet g := 7\nfor o in [1, 2] {\nif true {\n%s\n}\nx.mark(this.k, b, c, g)\n}\nx.mark(this.k, this.j, b, c, g)\nreturn this\n}}\no := new(a)\nc := o.m(2)\nx.mark(c.k, o.k, o.j)"},
+	{"init with super", "b := {\"i\": 0, \"init\": func (b) {\nthis.i := b\n}}\na := {\"super\": [b], \"k\": \"outer\", \"n\": func (b) {\nthis.j := b\nreturn this.k\n}, \"init\": func (b, c=3) {\nlet g := 7\n%s\nx.mark(this.k, len(super), b, c, g)\nsuper[0](b)\nx.mark(this.i)\n}}\no := new(a, 2)\nx.mark(o.k, o.i)"},
+	{"closure of a method", "a := {\"k\": \"outer\", \"n\": func (b) {\nreturn this.k\n}, \"m\": func (b, c=3) {\nlet g := 7\nreturn func () {\n%s\nreturn [this.k, b, c, g]\n}\n}}\no := new(a)\nc := o.m(2)\nx.mark(c())\nx.mark(c())"},
+}
+
+var c05InnerDecl = []struct{ name, src string }{
+	{"helper template, method call", "let f := {\"k\": \"helper\", \"m\": func (b, g=5) {\nthis.j := b\nreturn [this.k, b, g]\n}}\nlet a := new(f)\nx.mark(a.m(4))\nx.mark(a.j, a.k)"},
+	{"helper method assigns an outer variable", "let f := {\"k\": \"helper\", \"m\": func (b) {\nc := 9\nlet g := 8\nreturn this.k\n}}\nlet a := new(f)\nx.mark(a.m(4))"},
+	{"helper init with arguments", "let f := {\"k\": \"helper\", \"init\": func (b, c) {\nthis.k := [b, c]\n}}\nlet a := new(f, 4, 5)\nx.mark(a.k)"},
+	{"helper with super and init", "let f := {\"init\": func (b) {\nthis.i := b\n}}\nlet a := {\"super\": [f], \"init\": func (b) {\nsuper[0](b + 1)\nthis.j := len(super)\n}}\nlet a := new(a, 4)\nx.mark(a.i, a.j)"},
+	{"function literal, parameters named like outer variables", "let f := func (b, c, g) {\nb := b + 1\nreturn [b, c, g]\n}\nx.mark(f(10, 20, 30))\nx.mark(f(10))"},
+	{"named function, default reads the caller's variable", "func f(b, c=b) {\nlet g := 8\nreturn [b, c, g]\n}\nx.mark(f(10))\nx.mark(f())"},
+	{"function literal with parameters this / super", "let f := func (this, super) {\nreturn [this, super]\n}\nx.mark(f(1, 2))\nx.mark(f())"},
+	{"method of the outer object", "x.mark(this.n(4))"},
+	{"two levels of helpers", "let f := {\"k\": \"h1\", \"m\": func () {\nlet f := {\"k\": \"h2\", \"m\": func () {\nreturn this.k\n}}\nlet a := new(f)\nx.mark(a.m())\nreturn this.k\n}}\nlet a := new(f)\nx.mark(a.m())"},
+	{"helper instantiated twice, second call after the first returned", "let f := {\"k\": 0, \"m\": func (b) {\nthis.k := this.k + b\nreturn this.k\n}}\nlet a := new(f)\nlet o := new(f)\nx.mark(a.m(1), o.m(10), a.m(100))"},
+	{"recursive helper method", "let f := {\"k\": \"helper\", \"m\": func (b) {\nif (b > 0) and (b < 4) {\nreturn [b, this.m(b - 1)]\n}\nreturn this.k\n}}\nlet a := new(f)\nx.mark(a.m(2))"},
 }
 
 // ---------------------------------------------------------------- random programs
@@ -590,6 +617,12 @@ func init() {
 			// (6) objects
 			for _, s := range c05Objects {
 				emit("directed objects", s, "o", "a", "b")
+			}
+			// (6b) declarations inside a running method / init / function, probes of the outer frame afterwards
+			for _, oc := range c05OuterCtx {
+				for _, in := range c05InnerDecl {
+					emit("exhaustive outer context x inner declaration (nested this/super/params)", fmt.Sprintf(oc.src, in.src), "o", "a", "[b, c, g]", "f")
+				}
 			}
 			// (7) random programs
 			n := 2500
